@@ -125,6 +125,15 @@ def gen_cases(ctx):
             a_first = [x for x in names if x[0] in "pA"]
             cases.append({"id": "reincl%dr" % n_, "naccts": 5, "blocks": blocks,
                           "arrivals": a_first + list(reversed([x for x in names if x[0] == "B"]))})
+    # forged header numbers on side-branch blocks whose parent is already stored (gather is the only place that checks the
+    # numbering of a side-branch block against its parent): a child of the last side block claiming a number above the best height
+    for j, (la, lb, gap) in enumerate([(3, 1, 1), (3, 2, 2), (2, 1, 3), (4, 2, 1)] if quick else
+                                      [(la, lb, gap) for la in (2, 3, 4) for lb in (1, 2, 3) for gap in (1, 2, 3, 4) if lb < la]):
+        blocks = cd.two_branches(j % 2, la, lb, shared=False)
+        no = (j % 2) + la + gap
+        blocks.append({"name": "X", "parent": "B%d" % (lb - 1), "txs": [{"from": 0, "to": 2, "amt": 1}], "bad": "", "no": no})
+        blocks.append({"name": "X2", "parent": "X", "txs": [], "bad": ""})
+        cases.append({"id": "gap%d" % j, "naccts": 3, "blocks": blocks, "arrivals": [b["name"] for b in blocks]})
     # three competing branches, random
     for i in range(40 if quick else 1500):
         blocks = cd.rnd_tree(rng, rng.choice([4, 5, 6, 7]), pbad=0.3, pno=0.0)
@@ -213,8 +222,16 @@ def run(ctx):
     shapes = set()
     for c, o in zip(cases, outs):
         libs = c.get("lib") or [0] * len(c["arrivals"])
-        for key, text in predicates(c, o, libs):
+        forged = any(b.get("no") is not None for b in c["blocks"])      # the Python predicates take the number of a block from its depth
+        for key, text in ([] if forged else predicates(c, o, libs)):
             fails.append((key, text, c))
+        if forged:                                                      # a mis-numbered block never becomes the best block
+            nm = {o["blocks"][n]["id"]: n for n in o["blocks"]}
+            for i, st in enumerate(o["steps"]):
+                b = nm.get(st["best"])
+                if b and any(x["name"] == b and x.get("no") is not None for x in c["blocks"]):
+                    fails.append(("C07:forged-number-block-is-best", "step %d: block %s with a forged number is the best block" % (i, b), c))
+                    break
         nreorg += sum(1 for st in o["steps"] if len(st["del"]) > 1 or st["put"])
         shapes.add((len(c["blocks"]), tuple(st["bestno"] for st in o["steps"]), tuple(len(st["put"]) for st in o["steps"])))
     for c, o in zip(c2, outs2):
